@@ -1,0 +1,24 @@
+//go:build verif
+
+package zookeeper
+
+import (
+	"time"
+
+	"github.com/linkedin/go-zk"
+	"go.uber.org/zap"
+
+	"github.com/linkedin/Burrow/core/protocol"
+)
+
+// Verification hooks (build tag "verif" only).
+
+// VerifStartWith runs the coordinator's real Start (root path creation, ZookeeperConnected, ZookeeperExpired,
+// the session-event main loop) on the given client and event channel instead of a network connection.
+func VerifStartWith(app *protocol.ApplicationContext, client protocol.ZookeeperClient, events <-chan zk.Event) (*Coordinator, error) {
+	zc := &Coordinator{App: app, Log: zap.NewNop()}
+	zc.connectFunc = func([]string, time.Duration, *zap.Logger) (protocol.ZookeeperClient, <-chan zk.Event, error) {
+		return client, events, nil
+	}
+	return zc, zc.Start()
+}
